@@ -205,12 +205,12 @@ static int assemble_VEX(struct instr *instruc, unsigned char ptr[],
   // W is predetermined therefore we do not want to overwrite it
   if (vex_first_byte == C4H) {
     // can be used for both RvvvvLpp and WvvvvLpp
-    ptr[i++] = ((~(instruc->hex.vvvv) << SHIFT_3) & MAX_SIGNED_8BIT) |
+    ptr[i++] = ((~(unsigned int)instruc->hex.vvvv << SHIFT_3) & MAX_SIGNED_8BIT) |
                (vex & MAX_UNSIGNED_8BIT);
   } else if (vex_first_byte == C5H) {
     RvvvvLpp = (vex & MAX_UNSIGNED_8BIT) |
                ((~(instruc->hex.rex & rex_r) << SHIFT_5) & NEG8BIT_CHECK);
-    ptr[i++] = ((~(instruc->hex.vvvv) << SHIFT_3) & MAX_SIGNED_8BIT) |
+    ptr[i++] = ((~(unsigned int)instruc->hex.vvvv << SHIFT_3) & MAX_SIGNED_8BIT) |
                (RvvvvLpp & MAX_UNSIGNED_8BIT);
   }
   return i;
